@@ -41,7 +41,7 @@ func runC08E2E(t *rapid.T) {
 	}
 	defer func() {
 		time.Sleep(30 * time.Millisecond)
-		_ = srv.s.Close()
+		srv.stop()
 	}()
 	maxReq := rapid.IntRange(1, 6).Draw(t, "maxRequestsPerBatch")
 	linger := time.Duration(rapid.IntRange(0, 2).Draw(t, "lingerMs")) * time.Millisecond
